@@ -101,6 +101,22 @@ const STD_ERR: [(&str, &str); 4] = [
     ("org.varlink.service.InvalidParameter", "parameter"),
 ];
 const CUSTOM_ERR: &str = "org.sim.k.Boom";
+/// names that only look like the standard ones: unqualified, with the prefix doubled, under another
+/// interface. All of them are "any other error": the caller gets the full reply.
+const LOOKALIKE_ERR: [&str; 4] = [
+    "InvalidParameter",
+    "org.varlink.service.org.varlink.service.MethodNotFound",
+    "org.example.x.InterfaceNotFound",
+    "MethodNotImplemented",
+];
+
+fn custom_name(name: u8) -> &'static str {
+    if name >= 5 {
+        LOOKALIKE_ERR[(name as usize - 5) % LOOKALIKE_ERR.len()]
+    } else {
+        CUSTOM_ERR
+    }
+}
 
 fn spec_json(s: &RSpec) -> Value {
     serde_json::to_value(s).unwrap()
@@ -124,7 +140,7 @@ fn final_frame(spec: &RSpec, token: &str) -> Value {
         RSpec::OkIllTyped => json!({"parameters": {"token": 5}}),
         RSpec::OkBig => json!({"parameters": {"token": token, "pad": "B".repeat(9000)}}),
         RSpec::Err { name, params } => {
-            let n = if (*name as usize) < 4 { STD_ERR[*name as usize].0 } else { CUSTOM_ERR };
+            let n = if (*name as usize) < 4 { STD_ERR[*name as usize].0 } else { custom_name(*name) };
             let mut m = serde_json::Map::new();
             m.insert("error".into(), json!(n));
             if let Some(p) = err_params(*name, *params, token) {
@@ -150,7 +166,7 @@ fn expected_outcome(spec: &RSpec, token: &str) -> String {
             } else {
                 format!(
                     "E:Reply:{}:{}",
-                    CUSTOM_ERR,
+                    custom_name(*name),
                     err_params(*name, *params, token).map(|v| v.to_string()).unwrap_or_else(|| "-".into())
                 )
             }
@@ -1215,6 +1231,11 @@ fn all_specs() -> Vec<RSpec> {
             v.push(RSpec::Err { name, params });
         }
     }
+    for name in 5..9u8 {
+        for params in [0u8, 1] {
+            v.push(RSpec::Err { name, params });
+        }
+    }
     v
 }
 
@@ -1564,7 +1585,12 @@ pub fn c05_spaces(tier: Tier) -> Vec<Space> {
                     // now and then an iteration is walked away from before its final reply: the
                     // connection then belongs to it for good, whatever comes next is refused as busy
                     let nexts = if k > 0 && rng.chance(1, 10) { rng.range(0, k as u64) as u8 } else { k + 1 + rng.range(0, 2) as u8 };
-                    ops.push(KOp::More { conts: k, fin: rng.pick(&specs).clone(), nexts, nested: rng.chance(1, 4) });
+                    if k > 0 && rng.chance(1, 8) {
+                        // an error item that carries continues:true in mid-stream: the stream goes on
+                        ops.push(KOp::MoreErr { conts: k, err_at: rng.range(0, k as u64 - 1) as u8, fin: rng.pick(&specs).clone(), nexts: k + 1 + rng.range(0, 2) as u8 });
+                    } else {
+                        ops.push(KOp::More { conts: k, fin: rng.pick(&specs).clone(), nexts, nested: rng.chance(1, 4) });
+                    }
                     // a call that the client refuses before it writes anything (parameters that do not
                     // serialise, a call object used twice) between an iteration and the next call
                     match rng.below(12) {
